@@ -13,7 +13,8 @@ from pbt.refsem import S, Sem, fkey
 ID = "C11"
 RULE = (
     "cases: generated fixed-size unions (members scalar, array, nested struct to 2 levels, anonymous struct, nested "
-    "union, structs with bit-fields; packed/aligned; top level or wrapped as a struct member between two other fields) x "
+    "union, structs with bit-fields; packed/aligned; top level or wrapped as a struct member between two other fields; a "
+    "top-level union is also parsed, alone and as U[2], at a stream position of 1-7: same values, exactly the size consumed) x "
     "generated contents x assignment histories of 2-10 steps: assign a whole member, assign through a nested path "
     "(u.s.x, u.s.inn.q), assign a field of an anonymous struct member (u.m), construct with a keyword, re-parse. Oracle "
     "(model = ONE bytearray per union): len(U) == max member size rounded to the alignment == bytes consumed; after every "
@@ -192,6 +193,25 @@ def _run_model(case, m, mode, ctx=None):
         raise Violation("parse-raised", f"{desc()} -> {obj}", obj.where)
     if s.tell() != total:
         raise Violation("union-size", f"parsing consumed {s.tell()}, reference size {total}: {desc()}")
+    if not case["wrapped"] and mode == "ideal":
+        # a union reads its extent into a buffer of its own: where in the stream it starts has no bearing on how much it
+        # consumes (also in aligned mode), neither for one union nor for consecutive ones
+        p0 = 1 + (len(case["ops"]) + total) % 7
+        s2 = io.BytesIO(bytes([0x5A]) * p0 + data + data + b"\xee\xee")
+        s2.seek(p0)
+        o2 = lib(cs.Root, s2)
+        if isinstance(o2, Err):
+            raise Violation("parse-raised", f"{desc({'stream_position': p0})} -> {o2}", o2.where)
+        if s2.tell() != p0 + total:
+            raise Violation("union-size", f"parsing a {total}-byte union at stream position {p0} left the stream at {s2.tell()}, expected {p0 + total}: {desc({'stream_position': p0})}")
+        if libside.cplain(o2) != libside.cplain(obj):
+            raise Violation("union-size", f"the same bytes parsed at stream position {p0} give {libside.cplain(o2)!r}, at position 0 {libside.cplain(obj)!r}: {desc({'stream_position': p0})}")
+        s2.seek(p0)
+        a2 = lib(lambda: cs.Root[2](s2))
+        if isinstance(a2, Err) or s2.tell() != p0 + 2 * total or [libside.cplain(e) for e in a2] != [libside.cplain(obj)] * 2:
+            raise Violation("union-size", f"Root[2] at stream position {p0}: {a2 if isinstance(a2, Err) else [libside.cplain(e) for e in a2]!r}, stream left at {s2.tell()} (expected {p0 + 2 * total}, two copies of {libside.cplain(obj)!r}): {desc({'stream_position': p0})}")
+        if ctx is not None:
+            ctx.count("parsed-at-nonzero-stream-position")
     off = sem.layout(root)["offs"][1] if case["wrapped"] else 0
     buf = bytearray(data[off : off + usize])
     lu = obj.u if case["wrapped"] else obj
@@ -443,7 +463,7 @@ def _run_model(case, m, mode, ctx=None):
 def run_case(case, ctx):
     m = import_repo()
     try:
-        stats = _run_model(case, m, "ideal")
+        stats = _run_model(case, m, "ideal", ctx)
     except Violation as v:
         if v.kind in ("member-view-incoherent", "dumps-incoherent"):
             try:
